@@ -36,7 +36,11 @@ Tie: correspondence (C).
   observation / aggregated), `get_value_and_derivatives` (aggregated / per observation, gradient) and `create_function` (called
   twice at once, or created and called later with other operations in between - only operations that do not regenerate the
   database's draws: see C10.function_reads_own_series_partial); numbers taken from the global generator; `number_of_draws`
-  assigned on an object (also under its deprecated name); 1-3 draw variables per formula of ALL 21 native types and the user
+  assigned on an object (also under its deprecated name); formulas REFUSED inside the generation of their draws (unknown type or a
+  generator returning the wrong shape, after a first variable was served; expression or BIOGEME constructor) between the
+  preparation of a formula (`create_function` / `Expression.prepare`) and its evaluation with `prepare_ids=False`
+  (C10.refused_generation_keeps_world, function_survives_refusals_partial); user types that are case variants / look-alikes of
+  native names and of each other (`Uniform`, `normal_anti`, `g1`, `Normal_MLHS`, `UNIFORM_HALTON`) in every stream; 1-3 draw variables per formula of ALL 21 native types and the user
   ones, order of first appearance mostly not alphabetical.  Oracle from the statement: the value (and the gradient) is the mean
   over the draws of the integrand with every variable reading its own column of one of the tables `Database.generate_draws`
   returned for these variables (recorded by a harness-side wrapper of the instance's public method), objects with the same
@@ -79,7 +83,7 @@ MANIFEST = dict(
     '(call_site_order_forced, appearance_order_refuted); BIOGEME.__init__ = seed policy + three generation rounds, the engine receives the second one, built for the sorted names, and every evaluation through the object reads each variable\'s own series of that round '
     '(biogeme_engine_is_second_round, biogeme_reads_own_series, biogeme_mc_mean, biogeme_mc_denotes_mean: end to end over the reals); an expression evaluated with prepare_ids reads the table generated in that call (expr_reads_own_series); whatever happens afterwards on the database / generator / attribute number_of_draws an object keeps its formulas and engine table '
     '(engine_frozen, List Op fold); a function made by create_function reads its own series as long as nothing regenerates Database.theDraws between creation and call - PARTIAL, the unguarded statement is refuted on a witness: the calculator hands database.theDraws as it is at the time of the call '
-    '(function_reads_own_series_partial, function_reads_later_table); two constructors with the same non-zero seed build the same object in any two worlds, seed 0 continues from the current state (seeded_objects_identical, seed_zero_continues); '
+    '(function_reads_own_series_partial, function_reads_later_table); a refused generation (unknown type / wrong shape at any variable; expression, function or constructor) leaves Database.theDraws and the objects as they were, so a prepared formula survives refused formulas (refused_generation_keeps_world, function_survives_refusals_partial); a user type that is not literally a native key is served by the user generator whatever its upper-cased form (lookalike_served_by_user); two constructors with the same non-zero seed build the same object in any two worlds, seed 0 continues from the current state (seeded_objects_identical, seed_zero_continues); '
     'the literal id of every group: free, fixed (after the free ones), random variable, draw variable = offset + drawId (derive_index_free, derive_index_fixed, derive_index_rv, derive_index_draw). '
     'Tie: real Database/BIOGEME/expressions on generated cases and sessions, every entry point.',
     design='DESIGN.md §5 C10',
@@ -118,7 +122,13 @@ BETA_NAMES = ['b2', 'b10']  # sorted: b10, b2 -> positions differ from the order
 DET_NATIVE = ['UNIFORM_HALTON2', 'UNIFORM_HALTON3', 'UNIFORM_HALTON5', 'UNIFORMSYM_HALTON2', 'UNIFORMSYM_HALTON3', 'UNIFORMSYM_HALTON5', 'NORMAL_HALTON2', 'NORMAL_HALTON3', 'NORMAL_HALTON5']
 RND_NATIVE = ['UNIFORM', 'NORMAL', 'UNIFORMSYM', 'UNIFORM_MLHS', 'NORMAL_MLHS', 'NORMAL_ANTI', 'UNIFORM_ANTI', 'UNIFORM_MLHS_ANTI', 'UNIFORMSYM_ANTI', 'UNIFORMSYM_MLHS',
               'UNIFORMSYM_MLHS_ANTI', 'NORMAL_MLHS_ANTI']  # every native type is in one of the two lists (checked by `check_native_seed`)
-USER = ['G0', 'G1', 'G2']
+# user types: plain names + look-alikes of native names and of each other (case variants): registered and declared consistently,
+# each must be served by ITS registered generator
+USER = ['G0', 'G1', 'G2', 'Uniform', 'normal_anti', 'g1', 'Normal_MLHS', 'UNIFORM_HALTON']
+
+
+def user_generators():
+    return {ty: (user_gen(g), f'user {g}') for g, ty in enumerate(USER)}
 
 
 # ----------------------------------------------------------------------------- generators (real objects)
@@ -243,7 +253,7 @@ def check_table(ctx, res, rng):
     case = {'N': N, 'R': R, 'names': order, 'types': types}
     iso_f.note(case, 'Database.generate_draws')
     d = make_db(N, [[0.0, 0.0]] * N)
-    d.set_random_number_generators({f'G{g}': (user_gen(g), f'user {g}') for g in range(3)})
+    d.set_random_number_generators(user_generators())
     rnd = sorted({t for t in types.values() if t in RND_NATIVE})
     with Recorder(rnd) as rec:
         try:
@@ -531,7 +541,7 @@ def check_mc(ctx, res, case):
     iso_f.note(case, 'MonteCarlo')
     declared = sorted(types)  # any order: the id manager sorts
     d = make_db(N, case['rows'])
-    d.set_random_number_generators({f'G{g}': (user_gen(g), f'user {g}') for g in range(3)})
+    d.set_random_number_generators(user_generators())
     rnd = sorted({t for t in types.values() if t in RND_NATIVE})
     expr = MonteCarlo(build(tree, types))
     bdict = beta_vector(case['betas'])
@@ -636,7 +646,7 @@ def run_seeded(case, s):
     bdict = beta_vector(case['betas'])
     with core.scratch(toml):
         d = make_db(N, case['rows'])
-        d.set_random_number_generators({f'G{g}': (user_gen(g), f'user {g}') for g in range(3)})
+        d.set_random_number_generators(user_generators())
         formulas, key = formulas_for(case['layout'], MonteCarlo(build(case['tree'], types)), case['ll_key'])
         with Recorder(rnd) as rec:
             B = bio.BIOGEME(d, formulas, number_of_draws=R, seed=s) if case['seed_via'] == 'kwarg' else bio.BIOGEME(d, formulas, number_of_draws=R)
@@ -906,7 +916,7 @@ def derive2_objects(case, bvals=None, rows=None):
     rows = case['rows'] if rows is None else rows
     spec = {'bnames': case['bnames'], 'bstatus': case['bstatus'], 'bvals': case['bvals'] if bvals is None else bvals, 'vnames': case['vnames']}
     d = db.Database('t', pd.DataFrame({c: [float(r[j]) for r in rows] for j, c in enumerate(case['dbcols'])}))
-    d.set_random_number_generators({f'G{g}': (user_gen(g), f'user {g}') for g in range(3)})
+    d.set_random_number_generators(user_generators())
     nb = len(case['bnames'])
 
     def beta(i):
@@ -1109,10 +1119,26 @@ def gen_session(rng):
                   'layout': rng.choice(['is-ll', 'single', 'next-to-ll', 'only']), 'll_key': rng.choice(['log_like', 'loglike'])}
         return op
 
+    def refused_op():
+        """a formula refused inside the generation of its draws, after at least one of its variables was served"""
+        decl, tree = gen_formula(rng, pool)
+        while len(decl) < 2:
+            decl, tree = gen_formula(rng, pool)
+        victim = rng.choice(sorted(n for n, _ in decl)[1:])
+        for pair in decl:
+            if pair[0] == victim:
+                pair[1] = rng.choice(['NORMALL', 'G7', 'GBAD', 'GBAD', 'uniform'])
+        if rng.random() < 0.3:
+            return {'k': 'new', 'seed': rng.choice([0, rng.randint(1, 10**6)]), 'decl': decl, 'R': new_R(decl), 'tree': tree, 'layout': rng.choice(['is-ll', 'only']), 'll_key': 'log_like', 'refused': True}
+        return {'k': 'evalE', 'decl': decl, 'R': new_R(decl), 'tree': tree, 'via': rng.choice(EXPR_VIAS), 'refused': True}
+
     n_ops = rng.randint(3, 7)
     live = False  # a function made by create_function whose draws are still those of the database
     while len(ops) < n_ops:
-        kind = rng.choice(['new', 'new', 'evalB', 'evalB', 'evalB', 'evalE', 'evalE', 'setR', 'consume', 'createF', 'callF', 'callF'])
+        kind = rng.choice(['new', 'new', 'evalB', 'evalB', 'evalB', 'evalE', 'evalE', 'setR', 'consume', 'createF', 'callF', 'callF', 'refused'])
+        if kind == 'refused':
+            ops.append(refused_op())  # keeps a function alive: C10.function_survives_refusals_partial
+            continue
         if kind in ('evalB', 'setR') and not specs:
             kind = 'new'
         if kind == 'callF' and not live:
@@ -1121,11 +1147,13 @@ def gen_session(rng):
             live = False  # the guard of C10.function_reads_own_series_partial
         if kind == 'createF':
             decl, tree = gen_formula(rng, pool)
-            ops.append({'k': 'createF', 'decl': decl, 'R': new_R(decl), 'tree': tree})
+            ops.append({'k': 'createF', 'decl': decl, 'R': new_R(decl), 'tree': tree, 'how': rng.choice(['create_function', 'prepare'])})
             live = True
-            if rng.random() < 0.6:
-                if rng.random() < 0.4:
+            if rng.random() < 0.7:
+                if rng.random() < 0.3:
                     ops.append({'k': 'consume', 'n': rng.choice([1, 17])})
+                if rng.random() < 0.5:
+                    ops.append(refused_op())
                 ops.append({'k': 'callF', 'shift': rng.choice([0.0, 0.5, -1.0])})
         elif kind == 'callF':
             ops.append({'k': 'callF', 'shift': rng.choice([0.0, 0.5, -1.0])})
@@ -1221,7 +1249,7 @@ def run_session(case):
     out, generated, objs, func, exprs = [], [], [], None, {}
     with core.scratch(TOML):
         d = make_db(N, case['rows'])
-        d.set_random_number_generators({f'G{g}': (user_gen(g), f'user {g}') for g in range(3)})
+        d.set_random_number_generators({**user_generators(), 'GBAD': (user_gen(2, 'extra'), 'one column too many')})
         orig = d.generate_draws
 
         def wrapped(draw_types, names, number_of_draws):
@@ -1254,11 +1282,19 @@ def run_session(case):
                     o.update(eval_expr(op, d, bdict, exprs, pos))
                 elif op['k'] == 'createF':
                     expr = with_betas(MonteCarlo(build(op['tree'], {n: t for n, t in op['decl']})))
-                    func = (expr.create_function(database=d, number_of_draws=op['R'], gradient=True, hessian=False), expr)
+                    if op.get('how') == 'prepare':
+                        expr.prepare(d, op['R'])
+                        func = (None, expr)
+                    else:
+                        func = (expr.create_function(database=d, number_of_draws=op['R'], gradient=True, hessian=False), expr)
                 elif op['k'] == 'callF':
-                    x = np.array([bdict[n] + op['shift'] for n in func[1].id_manager.free_betas.names])
-                    r = func[0](x)
-                    o.update({'sum': float(r.function), 'grad': {k: float(v) for k, v in r.gradient.items()}, 'shift': op['shift']})
+                    if func[0] is None:  # a prepared expression evaluated with prepare_ids=False
+                        vals = func[1].get_value_c(database=d, betas={n: v + op['shift'] for n, v in bdict.items()}, prepare_ids=False)
+                        o.update({'vals': [float(v) for v in vals], 'shift': op['shift']})
+                    else:
+                        x = np.array([bdict[n] + op['shift'] for n in func[1].id_manager.free_betas.names])
+                        r = func[0](x)
+                        o.update({'sum': float(r.function), 'grad': {k: float(v) for k, v in r.gradient.items()}, 'shift': op['shift']})
                 else:
                     np.random.uniform(size=op['n'])
             except Exception as e:  # noqa: BLE001
@@ -1332,6 +1368,10 @@ def check_session(ctx, res, case):
         res.tally('session:' + op['k'] + (':' + op['via'] if 'via' in op else '') + (':seed0' if op.get('seed') == 0 else ''))
         if 'reuse_of' in op:
             res.tally('session:evalE:same-expression-object-other-number-of-draws')
+        if op.get('refused'):
+            res.tally('session:refused-generation:' + ','.join(sorted({t for _, t in op['decl'] if t not in valid})))
+        if op['k'] == 'createF':
+            res.tally('session:createF:' + op.get('how', 'create_function'))
         for _, t in op.get('decl', []):
             res.tally('session-type:' + t)
         if op.get('decl') and [n for n, _ in op['decl']] != sorted(n for n, _ in op['decl']):
@@ -1380,7 +1420,7 @@ def check_session(ctx, res, case):
                 break
         if not ok:
             exp = expected_from_table(spec['tree'], betas_of(o), rows, {nm: cands[-1][0].index(nm) for nm in cands[-1][0]}, cands[-1][1], R, want_grad) if cands else None
-            res.violate(f'operation {pos} ({op["k"]} via {op.get("via", "create_function")}): the value is the mean over the draws of the integrand, every draw variable replaced by its own series '
+            res.violate(f'operation {pos} ({op["k"]} via {op.get("via") or spec_of(pos).get("how", "create_function")}): the value is the mean over the draws of the integrand, every draw variable replaced by its own series '
                         '(one of the tables generated for these variables)', case, describe(o),
                         None if exp is None else {'vals': [e[0] for e in exp], 'sum': math.fsum(e[0] for e in exp), 'grad': {b: math.fsum(e[2][b] for e in exp) for b in exp[0][2]}}, where=where)
             return
@@ -1393,7 +1433,7 @@ def check_session(ctx, res, case):
                     res.violate(f'with a non-zero seed the results are reproducible: objects {first[0]} and {op["i"]} built with seed {spec["seed"]} on the same formulas', case, o['vals'], first[1], where=where)
                     return
     # ---- correspondence with the model of the session (McSession on the describing instance)
-    req = {'op': 'session', 'native': native_names(), 'user': USER, 'N': N, 'seed0': case['seed0'],
+    req = {'op': 'session', 'native': native_names(), 'user': USER + ['GBAD'], 'N': N, 'seed0': case['seed0'],
            'ops': [{k: v for k, v in op.items() if k in ('k', 'seed', 'decl', 'R', 'i', 'n')} for op in case['ops']]}  # `reuse_of` is not sent: the model has no expression objects
 
     def cb(ans):
@@ -1430,12 +1470,12 @@ def check_session(ctx, res, case):
                 return
             exp = expected_from_table(spec['tree'], betas_of(o), rows, ids, T, spec['R'], 'grad' in o or 'grads' in o)
             if not matches(o, exp):
-                res.diverge(f'operation {pos} ({op["k"]} via {op.get("via", "create_function")}): value vs the mean over the table McSession.readBiogeme / readExpr designates '
+                res.diverge(f'operation {pos} ({op["k"]} via {op.get("via") or spec_of(pos).get("how", "create_function")}): value vs the mean over the table McSession.readBiogeme / readExpr designates '
                             '(described calls replayed on the real generators from the seeded state)', case, [e[0] for e in exp], describe(o))
                 return
             if 'vals' in o:
                 stage2.append((pos, o['vals'], {'op': 'mc', 'declared': [n for n, _ in spec['decl']], 'table': [[[f2b(float(v)) for v in r] for r in m] for m in T],
-                                                'betas': [f2b(v) for v in betas], 'rows': [[f2b(v) for v in r] for r in rows], 'R': spec['R'], 'e': spec['tree']}))
+                                                'betas': [f2b(v) for v in betas_of(o)], 'rows': [[f2b(v) for v in r] for r in rows], 'R': spec['R'], 'e': spec['tree']}))
         if stage2:
             def cb2(ans2):
                 for (pos, vals, _), a2 in zip(stage2, ans2):
@@ -1462,7 +1502,7 @@ def replay_call(log):
             np.random.uniform(size=ev[1])
         else:
             kind, ty = ev[1].split(':', 1)
-            gen = native_random_number_generators[ty].generator if kind == 'native' else user_gen(USER.index(ty))
+            gen = native_random_number_generators[ty].generator if kind == 'native' else user_gen(2, 'extra') if ty == 'GBAD' else user_gen(USER.index(ty))
             out = np.array(gen(ev[2], ev[3]), dtype=float)
     return out
 
@@ -1526,7 +1566,7 @@ def check_native_seed(ctx, res, case):
     def one_run():
         with core.scratch(TOML):
             d = make_db(N, case['rows'])
-            d.set_random_number_generators({f'G{g}': (user_gen(g), f'user {g}') for g in range(3)})
+            d.set_random_number_generators(user_generators())
             expr = MonteCarlo(build(tree, types))
             if case['via'] == 'get_value_c':
                 np.random.seed(seed)
@@ -1627,7 +1667,7 @@ def check_integrate2(ctx, res, case):
     F = with_betas(F)
     try:
         d = make_db(N, rows)
-        d.set_random_number_generators({f'G{g}': (user_gen(g), f'user {g}') for g in range(3)})
+        d.set_random_number_generators(user_generators())
         if case['via'] == 'get_value_c':
             vals = [float(v) for v in F.get_value_c(database=d, betas=bdict, number_of_draws=R, prepare_ids=True)]
         else:
@@ -1675,7 +1715,7 @@ def check_estimate(ctx, res, case):
     try:
         with core.scratch(TOML):
             d = make_db(N, [[0.0, 0.0]] * N)
-            d.set_random_number_generators({f'G{g}': (user_gen(g), f'user {g}') for g in range(3)})
+            d.set_random_number_generators(user_generators())
             B = bio.BIOGEME(d, ll, number_of_draws=R)
             B.modelName = 'c10est'
             B.generate_html = B.generate_pickle = B.save_iterations = False
@@ -1749,6 +1789,17 @@ CORPUS_SESSION = [
         {'k': 'new', 'seed': 4242, 'decl': [['zeta', tz], ['alpha', ta]], 'R': 4, 'tree': _S_TREE, 'layout': 'is-ll', 'll_key': 'log_like'},
         {'k': 'evalB', 'i': 1, 'via': 'calculate_likelihood_scaled'}, {'k': 'evalB', 'i': 0, 'via': 'simulate'}, {'k': 'evalB', 'i': 1, 'via': 'simulate'}]}
     for tz, ta in (('G0', 'UNIFORM_HALTON3'), ('NORMAL', 'UNIFORMSYM_MLHS_ANTI'), ('NORMAL_MLHS_ANTI', 'NORMAL_MLHS_ANTI'))
+] + [
+    # a formula is prepared / made a function; other formulas are REFUSED inside the generation of their draws (unknown type, wrong
+    # shape - after a first variable was served); the prepared formula is evaluated again.  User types that are case variants of
+    # native names and of each other.
+    {'N': 3, 'seed0': 7, 'betas': [0.5, -0.25], 'rows': [[1.0, 0.5], [2.0, -1.0], [-0.5, 0.0]], 'ops': [
+        {'k': 'createF', 'decl': [['zeta', tz], ['alpha', ta]], 'R': 4, 'tree': _S_TREE, 'how': how}, {'k': 'callF', 'shift': 0.0},
+        {'k': 'evalE', 'decl': [['a', 'G0'], ['b', bad]], 'R': 4, 'tree': {'k': 'mul', 'a': {'k': 'draw', 'n': 'a'}, 'b': {'k': 'draw', 'n': 'b'}}, 'via': 'get_value_c', 'refused': True},
+        {'k': 'callF', 'shift': 0.5},
+        {'k': 'new', 'seed': 3, 'decl': [['a', 'g1'], ['b', bad]], 'R': 4, 'tree': {'k': 'mul', 'a': {'k': 'draw', 'n': 'a'}, 'b': {'k': 'draw', 'n': 'b'}}, 'layout': 'only', 'll_key': 'log_like', 'refused': True},
+        {'k': 'callF', 'shift': 0.0}]}
+    for tz, ta, how, bad in (('Uniform', 'normal_anti', 'prepare', 'GBAD'), ('g1', 'G1', 'create_function', 'NORMALL'), ('Normal_MLHS', 'UNIFORM_HALTON', 'prepare', 'uniform'))
 ] + [
     # the same NAME declared with another type in a later operation, same number of draws; the same expression object evaluated
     # again with another number of draws
